@@ -159,6 +159,19 @@ def run(F, ck, tier):
         nonvac = sum(1 for v in list(pa.values()) + list(pb.values()) for r in v if 'A' in r)
         ck.ob('R16.4', 'walk:non-vacuous', nonvac >= 6, '%d renderings mention an element of the arity schedule' % nonvac if nonvac >= 6 else
               'the abstraction no longer recognises the arity-schedule element in the domain-walk arguments (%d renderings): the comparison would be vacuous' % nonvac)
+    # R16.6 the compressed verification path pins the number of public inputs like the plain one
+    ck.rule('R16.6', 'CompressedProofWithPublicInputs::verify compares public_inputs.len() with the circuit (the unpadded digest cannot tell [a] from [a, 0]), as validate_proof_with_pis_shape does on the plain path')
+    cvq = [f for f in F.find('CompressedProofWithPublicInputs::verify', crate='plonky2') if not f.trait]
+    if len(cvq) != 1:
+        ck.ob('R16.6', 'anchor', False, 'ANCHOR-MISSING CompressedProofWithPublicInputs::verify')
+    else:
+        def _inl16(c, d, ev):
+            f2 = F.fns.get(c)
+            return f2 if (f2 is not None and f2.body is not None and not f2.trait and f2.file == cvq[0].file and f2.name.startswith(('validate', 'check'))) else None
+        flv = flow.Flow(F, cvq[0], inline=_inl16, depth=2)
+        okp = any(e.kind == 'guard' and any(a.endswith('.public_inputs') for a in e.eq_pins) for e in flv.events)
+        ck.ob('R16.6', 'pin:compressed:public_inputs', okp, 'public-input count pinned on the compressed path' if okp else
+              'CompressedProofWithPublicInputs::verify no longer pins public_inputs.len(): verify_compressed accepts a compressed proof with appended zero public inputs that plain verification (and decompression) reject', '%s:%d' % (cvq[0].file, cvq[0].line))
     # R16.5 the public-input digest is the same function on the plain, compressed and in-circuit paths
     ck.rule('R16.5', 'ProofWithPublicInputs::get_public_inputs_hash, CompressedProofWithPublicInputs::get_public_inputs_hash, the in-circuit verifier and the circuit builder hash the public inputs with the same (unpadded) hash function')
     from .facts import walk as _walk, parse_path as _pp, callee as _callee
